@@ -26,7 +26,7 @@ N = {"quick": (8, 150), "thorough": (16, 1200)}
 FLOORS = {"mixed-direction": 0.2, "one-sided-cursive": 0.15, "categories": 0.155, "carets": 0.254, "caret-at-zero": 0.03, "user-gdef": 0.08, "writer-instances-reused": 0.099}  # a third of the measured frequency: a starving generator is a harness error, sampling noise is not
 
 POOL = [("A", 0x41), ("a", 0x61), ("n", 0x6E), ("o", 0x6F), ("be-cy", 0x431), ("alef-ar", 0x627), ("beh-ar", 0x628), ("lam-ar", 0x644), ("bet-hb", 0x5D1), ("period", 0x2E),
-        ("hyphen", 0x2D), ("space", 0x20), ("one", 0x31), ("dual", (0x71, 0x62C)), ("f_i", None), ("lam_alef-ar", 0xFEFB), ("acutecomb", 0x301), ("unenc", None),
+        ("hyphen", 0x2D), ("space", 0x20), ("one", 0x31), ("dual", (0x71, 0x62C)), ("mu", (0xB5, 0x3BC)), ("f_i", None), ("lam_alef-ar", 0xFEFB), ("acutecomb", 0x301), ("unenc", None),
         ("a.alt", None), ("beh-ar.fina", None), ("n.fina", None), ("o_hyphen_o", None), ("period.alt", None), ("a.swash", None), ("a.bold", None)]
 DS_RULE_ALTS = ("a.swash", "a.bold")  # reachable only through designspace rules (two rules with the same left-hand glyph)
 # substitutions the generator may write: (inputs, output, fea text)
@@ -50,7 +50,7 @@ def _font(draw, force_names=None):
         g = {"name": n, "width": 500, "unicodes": (list(u) if isinstance(u, tuple) else [u]) if u else [], "contours": [[[0, 0, "line"], [100, 0, "line"], [100, 100, "line"]]], "anchors": []}
         if isinstance(u, tuple) and draw(st.booleans()):
             g["unicodes"].reverse()  # a glyph encoded at a left-to-right and a right-to-left code point
-        r = draw(st.integers(0, 9)) if n != "dual" else draw(st.integers(0, 5))
+        r = draw(st.integers(0, 9)) if n not in ("dual", "mu") else draw(st.integers(0, 5))
         if r <= 4:
             sfxs = draw(st.lists(st.sampled_from(["", "", "", ".LTR", ".RTL", ".foo", ".2.LTR", ".alt.RTL", ".2.RTL", ".alt.LTR", ".1", ".narrow", ".top", ".y", ".end.RTL"]), min_size=1, max_size=2, unique=True))
             for sfx in sfxs:
